@@ -471,7 +471,19 @@ func runC07(ctx *Ctx) error {
 		res.Count(in.Family)
 		res.Eval(string(x), hasRepeatedTrigram(x))
 		cs := map[string]interface{}{"family": in.Family, "input_hex": shortHex(x), "len": len(x), "crc": crc}
-		s, err, pan := lzCompress(x, crc, nil)
+		// the stream handed to the reference is produced the way callers produce it: in one Write,
+		// in random pieces, or as a short first piece (a header line) followed by the rest
+		var parts [][]byte
+		switch idx % 4 {
+		case 1:
+			parts = ctx.Rng.Partition(x)
+		case 3:
+			if k := 1 + ctx.Rng.Intn(59); len(x) > k {
+				parts = [][]byte{x[:k], x[k:]}
+			}
+		}
+		cs["writes"] = len(parts)
+		s, err, pan := lzCompress(x, crc, parts)
 		if err != nil || pan != nil {
 			res.Fail(Failure{Kind: "oracle", Site: "writer-error", Case: cs, Detail: fmt.Sprint(pan, err)})
 			continue
